@@ -1,11 +1,13 @@
 (* C04 — an accepted value comes back complete and unaltered inside the model.
-   Statements only (Proofs/FaithfulProof.v, DefaultsProof.v).  PARTIAL: proved per element for
-   scalars, numbers and arrays and for the member-resolution step of objects; the recursive
-   composition (nested objects, composition branches) is checked by running Validate.build in
-   Coq on every generated case against the implementation's constructed result. *)
+   Statements only (Proofs/FaithfulProof.v, DefaultsProof.v, C04Retrieve.v).  C04_complete is the
+   recursive statement: every member of the input at every depth is held by the result (any
+   element tree, composition branch, nesting), under the premise that no object of the value uses
+   the Python name of a renamed property as a member name (finding K13 otherwise) and that the
+   property maps are well-formed.  The per-element lemmas below say under which names. *)
 From Coq Require Import String Floats.SpecFloat.
 From Statham.Model Require Import Str Json Elem PyNum Validate.
-From Statham.Proofs Require Import FaithfulProof DefaultsProof.
+From Statham.Model Require Import Plain Retr.
+From Statham.Proofs Require Import FaithfulProof DefaultsProof JsonEqProof C04Retrieve.
 Local Open Scope string_scope.
 
 (* scalars are returned unaltered by every class except Number *)
@@ -68,3 +70,15 @@ Proof.
          (JObj [(s_ "class", JInt 1); (s_ "class_", JInt 2)]).
   eexists. split; [vm_compute; reflexivity|]. split; [reflexivity|]. eexists. split; reflexivity.
 Qed.
+
+(* ---- the recursive statement ---- *)
+(* holds r v: r is v with scalars unaltered (or float(int) under a number schema), arrays item
+   by item in order, and every member of every object of v held under some key of the result. *)
+Theorem C04_complete : forall O e v r, jwf v -> safe e v ->
+  build O e (Some v) = Ok r -> holds r v.
+Proof. intros O e v r Hw Hs H. exact (retrieve O e v r Hw Hs H). Qed.
+Print Assumptions C04_complete.
+
+Theorem C04_premise_checker : forall fuel e v, safeb fuel e v = true -> safe e v.
+Proof. exact safeb_sound. Qed.
+Print Assumptions C04_premise_checker.
